@@ -52,6 +52,10 @@ func (u *Universe) decCase(out *bufio.Writer, ti *TypeInfo, data []byte, tag str
 			flags = append(flags, "c02=bad")
 		}
 	}
+	if se := staleError(); se != "" {
+		flags = append(flags, "stale-error")
+		tag += " (an error returned by an earlier Unmarshal " + se + ")"
+	}
 	if u.wellFormed(ti, orig) {
 		flags = append(flags, "wf=1")
 	} else {
